@@ -677,19 +677,18 @@ func parserCursorLemma(p *Prog) (bool, string) {
 			scan := ""
 			for _, e := range w {
 				if e.Op == "call" && strings.HasSuffix(e.Args[0], ".ScanTokens") {
-					scan = "r@" // result name pattern r@run:tN; compare by position below
-					_ = scan
+					scan = e.KV["res"] // the name of the token list this path got from the scanner
 				}
 				if e.Op == "call" && e.Args[0] == "parser.NewParser" {
-					if len(e.Args) < 2 || !strings.HasPrefix(e.Args[1], "r@run:") {
-						why = append(why, "NewParser is given "+strings.Join(e.Args[1:], ",")+", not the scanner's token list")
+					if len(e.Args) < 2 || scan == "" || e.Args[1] != scan {
+						why = append(why, "NewParser is given "+strings.Join(e.Args[1:], ",")+", not the scanner's token list ("+scan+")")
 					}
 				}
 			}
 		}
 	}
 	for _, cs := range p.CallSites(p.Func("parser.NewParser")) {
-		if fk := p.FuncKey(cs.Parent()); fk != "main.run" {
+		if fk := p.FuncKey(cs.Parent()); !p.OwnedBy(cs.Parent(), "main.run") {
 			why = append(why, "NewParser is also called from "+fk+" (token list not known to end with EOF)")
 		}
 	}
